@@ -55,6 +55,7 @@ func terminating(sc *Scenario) {
 			}
 		}
 	}
+	boundAttempts(sc)
 	if !unl {
 		return
 	}
@@ -65,6 +66,71 @@ func terminating(sc *Scenario) {
 		}
 		s.Outcomes = append(s.Outcomes, Outcome{Result: 4})
 	}
+}
+
+// maxInvocations bounds the function invocations one execution through a stack
+// can make (the product of the attempts every retry and hedge layer allows), so
+// that a run stays far below the scheduler's step and task caps and hitting
+// those caps keeps meaning "the code under test does not terminate".
+const maxInvocations = 256
+
+func invocationBound(sc *Scenario, st []int) int {
+	n := 1
+	for _, pi := range st {
+		p := &sc.Policies[pi]
+		switch p.Kind {
+		case KRetry:
+			r := p.MaxRetries
+			if r < 0 {
+				r = 7 // unlimited: ends with the script (terminating)
+			}
+			n *= r + 1
+		case KHedge:
+			n *= p.MaxHedges + 1
+		}
+		if n > 1<<20 {
+			return n
+		}
+	}
+	return n
+}
+
+func boundAttempts(sc *Scenario) {
+	for _, st := range sc.Stacks {
+		for invocationBound(sc, st) > maxInvocations {
+			// lower the largest budget in the stack by one
+			best := -1
+			for _, pi := range st {
+				p := &sc.Policies[pi]
+				v := 0
+				switch p.Kind {
+				case KRetry:
+					v = p.MaxRetries
+				case KHedge:
+					v = p.MaxHedges
+				}
+				if v > 0 && (best < 0 || v > budgetOf(&sc.Policies[best])) {
+					best = pi
+				}
+			}
+			if best < 0 {
+				break
+			}
+			p := &sc.Policies[best]
+			if p.Kind == KRetry {
+				p.MaxRetries--
+			} else {
+				p.MaxHedges--
+			}
+		}
+	}
+}
+
+func budgetOf(p *PolicySpec) int {
+	if p.Kind == KRetry {
+		return p.MaxRetries
+	}
+	return p.MaxHedges
 }
 
 // terminates is the generic premise every generated scenario satisfies;
